@@ -664,50 +664,39 @@ theorem flat_in_grid (sqref : List Char) (cells : List Cell) (h : flatSqref sqre
     obtain ⟨_, _, _, _, _, _, _, _, _, _, _, _, b1, b2, _, b3, b4⟩ := hB
     omega
 
-/-- **exact acceptance of `flatSqref`** (as transcribed): it accepts a sequence iff
-every white-space separated reference is a strict A1 cell, a strict `cell:cell`
-range — or has three or more `:`-separated parts, in which case it is silently
-skipped (the `switch len(rng)` has no default case). -/
+/-- **exact acceptance of `flatSqref`, full strength** (after the repair of
+`sqref:accept-non-ref:skipped-multi-colon`): it accepts a sequence iff EVERY
+white-space separated reference is a strict A1 cell or a strict `cell:cell` range. -/
 theorem flat_accepts_iff (sqref : List Char) :
     (∃ cells, flatSqref sqref = .ok cells) ↔
-      ∀ ref ∈ fields sqref, (∃ c r, parseA1 ref = some (c, r)) ∨
-        (∃ q, parseRangeStrict ref = some q) ∨ 3 ≤ (splitColon ref).length := by
+      ∀ ref ∈ fields sqref, (∃ c r, parseA1 ref = some (c, r)) ∨ (∃ q, parseRangeStrict ref = some q) := by
   unfold flatSqref
   rw [flatRefs_ok_iff]
   constructor
   · intro h ref hr; exact (flatRef_ok_iff ref).mp (h ref hr)
   · intro h ref hr; exact (flatRef_ok_iff ref).mpr (h ref hr)
 
-/-- what is true (`…_partial`: the missing hypothesis is "no reference of the sequence
-has more than one colon"): then `flatSqref` accepts iff every reference is a strict
-cell or a strict range. -/
-theorem flat_strict_partial (sqref : List Char)
-    (hno : ∀ ref ∈ fields sqref, (splitColon ref).length ≤ 2) :
-    (∃ cells, flatSqref sqref = .ok cells) ↔
-      ∀ ref ∈ fields sqref, (∃ c r, parseA1 ref = some (c, r)) ∨ (∃ q, parseRangeStrict ref = some q) := by
-  rw [flat_accepts_iff]
-  constructor
-  · intro h ref hr
-    rcases h ref hr with a | a | a
-    · exact Or.inl a
-    · exact Or.inr a
-    · have := hno ref hr; omega
-  · intro h ref hr
-    rcases h ref hr with a | a
-    · exact Or.inl a
-    · exact Or.inr (Or.inl a)
+/-- hence an accepted sequence denotes a cell through each of its references:
+nothing is ignored (every reference contributes at least its first corner) -/
+theorem flat_nothing_ignored (sqref : List Char) (cells : List Cell) (h : flatSqref sqref = .ok cells)
+    (ref : List Char) (hr : ref ∈ fields sqref) : ∃ p ∈ cells, refHas ref p := by
+  rcases (flat_accepts_iff sqref).mp ⟨cells, h⟩ ref hr with ⟨c, r, hp⟩ | ⟨⟨c1, r1, c2, r2⟩, hq⟩
+  · have hh : refHas ref ((c : Int), (r : Int)) := Or.inl ⟨c, r, hp, rfl⟩
+    exact ⟨_, (flat_denotes sqref cells h _).mpr ⟨ref, hr, hh⟩, hh⟩
+  · have hh : refHas ref ((c1 : Int), (r1 : Int)) :=
+      Or.inr ⟨c1, r1, c2, r2, hq, by simp only []; omega, by simp only []; omega,
+        by simp only []; omega, by simp only []; omega⟩
+    exact ⟨_, (flat_denotes sqref cells h _).mpr ⟨ref, hr, hh⟩, hh⟩
 
-/-- **finding (open)**: `flatSqref` does not reject a reference with two or more
-colons, it ignores it: `flatSqref("A1:B2:C3")` and `flatSqref("x:y:z")` return no
-cells and no error (while `"junk"` is an error). Through the public API:
-`DeleteDataValidation("Sheet1", "x:y:z")` returns nil and deletes nothing. Oracle
-signature `sqref:accept-non-ref:skipped-multi-colon`. -/
-theorem finding_flat_skips_multi_colon :
-    flatSqref ['A', '1', ':', 'B', '2', ':', 'C', '3'] = .ok [] ∧
-    flatSqref ['x', ':', 'y', ':', 'z'] = .ok [] ∧
-    flatSqref ['A', '1', ' ', 'x', ':', 'y', ':', 'z'] = .ok [(1, 1)] ∧
-    (∃ e, flatSqref ['j', 'u', 'n', 'k'] = .error e) := by
-  refine ⟨by decide +kernel, by decide +kernel, by decide +kernel, ⟨.cellName, by decide +kernel⟩⟩
+/-- regression witnesses (literals) for the repaired finding: a reference with two or
+more colons is rejected, alone or inside a sequence -/
+theorem flat_reject_witnesses :
+    (∃ e, flatSqref ['A', '1', ':', 'B', '2', ':', 'C', '3'] = .error e) ∧
+    (∃ e, flatSqref ['x', ':', 'y', ':', 'z'] = .error e) ∧
+    (∃ e, flatSqref ['A', '1', ' ', 'x', ':', 'y', ':', 'z'] = .error e) ∧
+    flatSqref ['A', '1', ' ', 'B', '2', ':', 'A', '2'] = .ok [(1, 1), (1, 2), (2, 2)] := by
+  refine ⟨⟨.param, by decide +kernel⟩, ⟨.param, by decide +kernel⟩, ⟨.param, by decide +kernel⟩,
+    by decide +kernel⟩
 
 /-- **`squashSqref` preserves the denotation** (coordinate level): for the cells of
 one column in strictly ascending row order — what `flatSqref` yields per column for
@@ -816,5 +805,149 @@ theorem anchor_is_first_corner (p : Cell) (ref : List Char) (c1 r1 c2 r2 : Nat)
   obtain ⟨A, B, rfl, hA, hB⟩ := hs
   rw [splitColon_two A B (shape_nocolon hA) (shape_nocolon hB)]
   exact ⟨decode_of_shape hA, hin⟩
+
+/-! ## Column ranges (`parseColRange`: SetColVisible, SetColStyle, SetColWidth) -/
+
+/-- **exact acceptance of a column range, full strength** (after the repair of
+`colrange:accept-extra-part`): `parseColRange s = (lo, hi)` iff `s` is one accepted
+column name (`lo = hi` = its number) or exactly two accepted column names separated
+by one `:` (`lo`, `hi` = the smaller and the larger number). -/
+theorem colrange_accepts_iff (s : List Char) (lo hi : Int) :
+    parseColRange s = .ok (lo, hi) ↔
+      (∃ v, columnNameToNumber s = .ok v ∧ lo = v ∧ hi = v) ∨
+      (∃ a b x y, s = a ++ ':' :: b ∧ columnNameToNumber a = .ok x ∧ columnNameToNumber b = .ok y ∧
+        lo = min x y ∧ hi = max x y) := by
+  constructor
+  · intro h
+    unfold parseColRange at h
+    split at h
+    · rename_i a hsp
+      obtain ⟨rfl, _⟩ := splitColon_single hsp
+      split at h
+      · cases h
+      · rename_i v hv
+        simp only [Except.ok.injEq, Prod.mk.injEq] at h
+        exact Or.inl ⟨v, hv, h.1.symm, h.2.symm⟩
+    · rename_i a b hsp
+      obtain ⟨rfl, _, _⟩ := splitColon_exactly_two hsp
+      split at h
+      · cases h
+      · rename_i x hx
+        split at h
+        · cases h
+        · rename_i y hy
+          refine Or.inr ⟨a, b, x, y, rfl, hx, hy, ?_⟩
+          by_cases hlt : y < x
+          · simp only [hlt, if_true, Except.ok.injEq, Prod.mk.injEq] at h
+            omega
+          · simp only [hlt, if_false, Except.ok.injEq, Prod.mk.injEq] at h
+            omega
+    · cases h
+  · rintro (⟨v, hv, rfl, rfl⟩ | ⟨a, b, x, y, rfl, hx, hy, rfl, rfl⟩)
+    · unfold parseColRange
+      rw [splitColon_of_nocolon (colname_nocolon hv)]
+      simp only [hv]
+    · unfold parseColRange
+      rw [splitColon_two a b (colname_nocolon hx) (colname_nocolon hy)]
+      simp only [hx, hy]
+      by_cases hlt : y < x
+      · simp only [hlt, if_true, Except.ok.injEq, Prod.mk.injEq]; omega
+      · simp only [hlt, if_false, Except.ok.injEq, Prod.mk.injEq]; omega
+
+/-- an accepted column range is sorted and inside 1..MaxColumns -/
+theorem colrange_sorted_in_grid (s : List Char) (lo hi : Int) (h : parseColRange s = .ok (lo, hi)) :
+    1 ≤ lo ∧ lo ≤ hi ∧ hi ≤ (Facts.MaxColumns : Int) := by
+  rcases (colrange_accepts_iff s lo hi).mp h with ⟨v, hv, rfl, rfl⟩ | ⟨a, b, x, y, _, hx, hy, rfl, rfl⟩
+  · obtain ⟨h1, h2, _⟩ := col_decode_encode s _ hv
+    omega
+  · obtain ⟨h1, h2, _⟩ := col_decode_encode a x hx
+    obtain ⟨h3, h4, _⟩ := col_decode_encode b y hy
+    omega
+
+/-- `SetColWidth(sheet, startCol, endCol, w)` accepts iff BOTH arguments are accepted
+column names (a range, or anything with a colon, in either argument is rejected) -/
+theorem setcolwidth_accepts_iff (a b : List Char) :
+    (∃ q, colWidthRange a b = .ok q) ↔
+      (∃ x, columnNameToNumber a = .ok x) ∧ (∃ y, columnNameToNumber b = .ok y) := by
+  unfold colWidthRange
+  constructor
+  · rintro ⟨⟨lo, hi⟩, h⟩
+    rcases (colrange_accepts_iff _ lo hi).mp h with ⟨v, hv, _, _⟩ | ⟨a', b', x, y, hab, hx, hy, _, _⟩
+    · have := colname_nocolon hv ':' (by simp)
+      exact absurd this (by decide)
+    · have hab' : a ++ ':' :: b = a' ++ ':' :: b' := by simpa using hab
+      obtain ⟨rfl, rfl⟩ := colon_cut_unique hab' (colname_nocolon hx) (colname_nocolon hy)
+      exact ⟨⟨x, hx⟩, ⟨y, hy⟩⟩
+  · rintro ⟨⟨x, hx⟩, ⟨y, hy⟩⟩
+    exact ⟨(min x y, max x y), (colrange_accepts_iff _ _ _).mpr
+      (Or.inr ⟨a, b, x, y, by simp, hx, hy, rfl, rfl⟩)⟩
+
+/-- regression witnesses (literals) for the repaired `colrange:accept-extra-part` -/
+theorem colrange_reject_witnesses :
+    (∃ e, parseColRange ['A', ':', 'C', ':', 'j'] = .error e) ∧
+    (∃ e, parseColRange ['B', ':', 'D', ':', 'F'] = .error e) ∧
+    (∃ e, colWidthRange ['A', ':', 'B'] ['C'] = .error e) ∧
+    parseColRange ['c', ':', 'a'] = .ok (1, 3) := by
+  refine ⟨⟨.colName, by decide +kernel⟩, ⟨.colName, by decide +kernel⟩, ⟨.colName, by decide +kernel⟩,
+    by decide +kernel⟩
+
+/-! ## Lookup paths on sheets WITH merged cells -/
+
+/-- **spelling independence of every path through `mergeCellsParser`, any merged-cell
+list** (well-formed or not): two accepted spellings of one cell reach the same key,
+or fail with the same error — setters, string getters, rich text, hyperlinks. -/
+theorem paths_merged_spelling_independent (ms : List (List Char)) (s t : List Char) (ci ri : Int)
+    (hs : cellNameToCoordinates s = .ok (ci, ri)) (ht : cellNameToCoordinates t = .ok (ci, ri)) :
+    pathPrepareM ms s = pathPrepareM ms t ∧ pathGetStringM ms s = pathGetStringM ms t ∧
+    pathRichGetM ms s = pathRichGetM ms t ∧ pathLinkM ms s = pathLinkM ms t := by
+  have ha := anchor_spelling_independent ms s t ci ri hs ht
+  obtain ⟨q1, hq1⟩ := split_ok_of_decode hs
+  obtain ⟨q2, hq2⟩ := split_ok_of_decode ht
+  unfold pathRichGetM pathPrepareM pathGetStringM pathLinkM
+  simp only [ha, hq1, hq2, and_self]
+
+/-- **where the paths land on a well-formed sheet** (every `<mergeCell ref>` a strict
+range, as `MergeCell` writes them): if no merged range contains the cell, exactly
+where they land without merged cells (`paths_canonical`); otherwise ALL of them land
+on the first corner of the first merged range (in list order) containing the cell —
+the setter writes that grid position, the string getter compares with its canonical
+name, the hyperlink key is that corner as spelled in the stored reference. -/
+theorem paths_merged_land (ms : List (List Char)) (s : List Char) (ci ri : Int)
+    (hs : cellNameToCoordinates s = .ok (ci, ri))
+    (hwf : ∀ ref ∈ ms, ∃ c1 r1 c2 r2, parseRangeStrict ref = some (c1, r1, c2, r2)) :
+    (∃ canon, coordinatesToCellName ci ri false = .ok canon ∧ (∀ ref ∈ ms, ¬ MergeHit (ci, ri) ref) ∧
+      pathPrepareM ms s = .ok (.xy ci ri) ∧ pathGetStringM ms s = .ok (.ref canon) ∧
+      pathLinkM ms s = .ok (.ref canon)) ∨
+    (∃ pre ref post, ∃ c1 r1 c2 r2 : Nat, ∃ canon1,
+      ms = pre ++ ref :: post ∧ (∀ x ∈ pre, ¬ MergeHit (ci, ri) x) ∧
+      parseRangeStrict ref = some (c1, r1, c2, r2) ∧
+      min (c1 : Int) c2 ≤ ci ∧ ci ≤ max (c1 : Int) c2 ∧ min (r1 : Int) r2 ≤ ri ∧ ri ≤ max (r1 : Int) r2 ∧
+      coordinatesToCellName (c1 : Int) (r1 : Int) false = .ok canon1 ∧
+      pathPrepareM ms s = .ok (.xy (c1 : Int) (r1 : Int)) ∧ pathGetStringM ms s = .ok (.ref canon1) ∧
+      pathLinkM ms s = .ok (.ref ((splitColon ref).headD []))) := by
+  obtain ⟨_, _, _, _, canon, hcanon, hdec⟩ := cell_decode_encode s ci ri hs
+  obtain ⟨q, hq⟩ := split_ok_of_decode hs
+  have hwf' : ∀ ref ∈ ms, ∃ c1 r1 c2 r2, RangeStrict ref c1 r1 c2 r2 := by
+    intro ref hr
+    obtain ⟨c1, r1, c2, r2, h⟩ := hwf ref hr
+    exact ⟨c1, r1, c2, r2, (parseRangeStrict_iff ref c1 r1 c2 r2).mp h⟩
+  obtain ⟨a, ha⟩ : ∃ a, mergeParseWith ms s = .ok a := by
+    unfold mergeParseWith
+    rw [upper_same_cell s ci ri hs]
+    simp only [hcanon]
+    exact redirectScan_total (ci, ri) canon ms hwf'
+  rcases anchor_exact ms s a ci ri hs ha with ⟨h1, h2⟩ | ⟨pre, ref, post, hms, hpre, hit, rfl⟩
+  · rw [hcanon] at h1; cases h1
+    refine Or.inl ⟨canon, hcanon, h2, ?_, ?_, ?_⟩
+    · unfold pathPrepareM; simp only [ha, hdec]
+    · unfold pathGetStringM; simp only [ha, hdec, hcanon]
+    · unfold pathLinkM; simp only [hq, ha]
+  · obtain ⟨c1, r1, c2, r2, hpr⟩ := hwf ref (by rw [hms]; simp)
+    obtain ⟨hcorner, b1, b2, b3, b4⟩ := anchor_is_first_corner (ci, ri) ref c1 r1 c2 r2 hpr hit
+    obtain ⟨_, _, _, _, canon1, hcanon1, _⟩ := cell_decode_encode _ _ _ hcorner
+    refine Or.inr ⟨pre, ref, post, c1, r1, c2, r2, canon1, hms, hpre, hpr, b1, b2, b3, b4, hcanon1, ?_, ?_, ?_⟩
+    · unfold pathPrepareM; simp only [ha, hcorner]
+    · unfold pathGetStringM; simp only [ha, hcorner, hcanon1]
+    · unfold pathLinkM; simp only [hq, ha]
 
 end XlModel.Props.C20
